@@ -234,7 +234,13 @@ pub fn worker_main(check: &mut dyn CheckImpl, args: &[String]) -> ! {
     while u < to {
         let mut viols = Vec::new();
         alloc::CURRENT_RUN.store(u, Ordering::Relaxed);
+        let t_unit = Instant::now();
         check.run_unit(tier, seed, u, &mut acc, &mut viols);
+        if t_unit.elapsed().as_secs() >= 5 {
+            // not part of any decision or hash: a hint for whoever tunes the tiers
+            eprintln!("slow unit {u} of {}: {:.1}s", check.id(), t_unit.elapsed().as_secs_f64());
+            acc.bump("units_slower_than_5s");
+        }
         acc.units_done += 1;
         let mut o = stdout.lock();
         for v in viols {
